@@ -317,3 +317,27 @@ Definition mentions (a : sub_id) (c : chan) (o : op) : bool :=
   end.
 Definition erase (a : sub_id) (c : chan) (h : list op) : list op :=
   filter (fun o => negb (mentions a c o)) h.
+
+(* ---- the property as a per-channel reference ("view"): what channel c must have received, told from
+   the channel's own side and without the dispatcher's table, dict order or deferred deletion.
+   State: the ids currently subscribed with c, and c's state.  The harness oracle (expected_view in
+   harness/props/C18.py) is the same function written in Python. ---- *)
+Definition memb (a : sub_id) (ks : list sub_id) : bool := existsb (N.eqb a) ks.
+Definition id_add (a : sub_id) (ids : list sub_id) : list sub_id := if memb a ids then ids else ids ++ [a].
+Definition id_del (a : sub_id) (ids : list sub_id) : list sub_id := filter (fun b => negb (N.eqb b a)) ids.
+
+Definition view_step (c : chan) (v : list sub_id * cstate) (o : op) : list sub_id * cstate :=
+  let (ids, s) := v in
+  match o with
+  | Handle (ESubscribe a x) =>
+      (* acknowledged if c is alive, else dropped at once; an id that moves to another channel leaves c *)
+      if N.eqb x c then (if good s then (id_add a ids, push MSubscribed s) else (id_del a ids, close1 s))
+      else (id_del a ids, s)
+  | Handle (EUnsubscribe a) =>
+      if memb a ids then (id_del a ids, close1 (if good s then push MUnsubscribed s else s)) else (ids, s)
+  | Handle (EPublish e) =>
+      (* once per id subscribed with c; a dead channel loses all its ids *)
+      if good s then (ids, pushes (repeat (MEv e) (length ids)) s) else ([], Nat.iter (length ids) close1 s)
+  | Break x k => if N.eqb x c then (ids, break_with k s) else (ids, s)
+  end.
+Definition view (c : chan) (h : list op) : list sub_id * cstate := fold_left (view_step c) h ([], fresh_chan).
